@@ -162,7 +162,7 @@ MemberLaws ==
 
 \* the reduced context of the judge decides exactly like the full context used for the selection
 CtxLaw ==
-    st.kind \in {"u", "ub"} =>
+    (st.kind = "ub" \/ (st.kind = "u" /\ st.c % 6 = 0)) =>       \* every sixth count and all wide ones (cost)
         \A n \in 1..Len(UTable) :
             UPre(UTable[n][1], st.i, st.j, UTable[n][2], UTable[n][3], CW) = (n \in UOk(st.i, st.j, CW))
 
